@@ -203,7 +203,7 @@ func main() {
 	defer os.RemoveAll(run)
 	plugin := filepath.Join(run, "protoc-gen-fastmarshal")
 	b := exec.Command("go", "build", "-o", plugin, "./cmd/protoc-gen-fastmarshal")
-	b.Dir, b.Env = "/repo", goEnv
+	b.Dir, b.Env = repoDir(), goEnv
 	if out, err := b.CombinedOutput(); err != nil {
 		fmt.Println("BUILD-ERROR: protoc-gen-fastmarshal does not compile:\n" + string(out))
 		os.Exit(2)
@@ -424,6 +424,13 @@ func main() {
 	r.Assume("invalid option VALUES are outside the quantifier; apiversion is compiled only with its matching runtime (v1: gogo, legacy; v2: gv2, gv1)")
 	r.Assume("schemas with proto3 optional are only generated for the google flavours (protoc-gen-gogo does not support them)")
 	r.Finish()
+}
+
+func repoDir() string {
+	if d := os.Getenv("VERIF_REPO"); d != "" {
+		return d
+	}
+	return "/repo"
 }
 
 func trunc(s string, n int) string {
